@@ -29,7 +29,7 @@ ASSUMPTIONS = ["hash(int) of the sha256-derived value hashes does not depend on 
                "how many forced switches at how many distinct source lines were observed"]
 FLOORS = {"quick": {"hash_seeds": 6, "texts_per_seed": 5000, "tie_texts": 20, "cross_seed_comparisons": 30000,
                     "repeat_comparisons": 1000, "snapshot_rechecks": 500, "threaded_calls": 1000,
-                    "forced_switches": 1000, "distinct_switch_points": 100, "cold_start_calls": 200},
+                    "forced_switches": 1000, "distinct_switch_points": 100, "cold_start_calls": 200, "cold_first_processes": 6, "cold_first_observations": 40},
           "thorough": {"hash_seeds": 32, "texts_per_seed": 5000, "cross_seed_comparisons": 200000,
                        "threaded_calls": 20000, "forced_switches": 50000}}
 SEEDS = {"quick": [0, 1, 2, 3, 4, 5, 6, 7], "thorough": list(range(40))}
@@ -77,10 +77,23 @@ def corpus(seed, n):
     return texts
 
 
+COLD_PROBES = [
+    # lazily initialised or one-shot module state shows when a text is the very first one a process sees
+    "Smith v. Jackson, 1 U.S. 1 (1999). In Jackson at 125 the court agreed; Smith at 3.",
+    "Foo v. Bar, 2 F.2d 2 (D. Mass. 1950). Id. at 5. Bar, supra, at 6; Bar at 7.",
+    "Miller v. Lee, 3 U.S. 3 (Wyo. 2001). As Lee at 9 and Miller at 10 show.",
+    "<p><em>Mitchell v. Clark</em>, 4 U.S. 4 (1980). In <i>Clark</i> the court; Mitchell at 8.</p>",
+    "1 Wash. 1 (1890); 2 P.R. 3 (1831); 42 U.S.C. § 1983; Mass. Gen. Laws ch. 1, § 2 (West 1999).",
+    "Roe, 410 U.S. at 120 (Vt. 1999); Stone v. Rogers, 5 U.S. 5 (4th Cir. 1999). Rogers at 6.",
+]
+
+
 def plan(tier, seed):
     specs = [dict(part="seed", hashseed=k, env={"PYTHONHASHSEED": str(k)}, seed=seed, n=NCORP[tier])
              for k in SEEDS[tier]]
     specs += [dict(part="repeat", seed=seed, n=NCORP[tier], i=i, env={"PYTHONHASHSEED": str(100 + i)}) for i in range(2)]
+    specs += [dict(part="coldfirst", seed=seed, probe=j, env={"PYTHONHASHSEED": str(300 + j)})
+              for j in range(len(COLD_PROBES))]
     nthr = 4 if tier == "quick" else 12
     specs += [dict(part="threads", seed=seed, i=i, calls=(50 if tier == "quick" else 300),
                    env={"PYTHONHASHSEED": str(200 + i)}) for i in range(nthr)]
@@ -277,9 +290,26 @@ def run_threads(spec, rec):
                     top_switch_points=sorted(switches.items(), key=lambda kv: -kv[1])[:5]))
 
 
+def run_coldfirst(spec, rec):
+    """The probe text is the first text this interpreter ever extracts from; afterwards the other probes
+    and the same probe again: all results go to the parent's cross-process history check."""
+    toks = {"ac": tok.get("ac"), "hs": tok.get("ac")}
+    order = [spec["probe"]] + [j for j in range(len(COLD_PROBES)) if j != spec["probe"]] + [spec["probe"]]
+    out = []
+    for j in order:
+        t = COLD_PROBES[j]
+        steps = ["html", "all_whitespace"] if t.startswith("<p>") else None
+        cs, ser = evaluate(t, steps, OPTS[0], toks)
+        rec.ev()
+        out.append((j, core.h64(ser), len(ser)))
+    rec.count("cold_first_processes")
+    with open(os.path.join(spec["workdir"], f"coldfirst-{spec['probe']}.json"), "w") as f:
+        json.dump(out, f)
+
+
 def run_shard(spec, rec):
     instrument.install(rec, what=())
-    {"seed": run_seed, "repeat": run_repeat, "threads": run_threads}[spec["part"]](spec, rec)
+    {"seed": run_seed, "repeat": run_repeat, "threads": run_threads, "coldfirst": run_coldfirst}[spec["part"]](spec, rec)
 
 
 def finalize(agg, results):
@@ -296,6 +326,30 @@ def finalize(agg, results):
         p = os.path.join(sp["workdir"], f"seed-{sp['hashseed']}.json")
         if os.path.exists(p):
             per_seed[sp["hashseed"]] = json.load(open(p))["results"]
+    # cold-first processes: every (probe, position in the process's history) must give the same result
+    by_probe = {}
+    for r in results:
+        sp = r.get("spec") or {}
+        if sp.get("part") != "coldfirst":
+            continue
+        p = os.path.join(sp["workdir"], f"coldfirst-{sp['probe']}.json")
+        if os.path.exists(p):
+            for pos_, (j, h, n_) in enumerate(json.load(open(p))):
+                by_probe.setdefault(j, []).append((sp["probe"], pos_, h))
+    ncold = 0
+    for j, obs in by_probe.items():
+        ncold += len(obs)
+        if len({h for _, _, h in obs}) > 1:
+            groups = {}
+            for first, pos_, h in obs:
+                groups.setdefault(h, []).append(dict(process_started_with_probe=first, call_index=pos_))
+            v = dict(monitor="C15.differs_with_call_history",
+                     case=dict(text=COLD_PROBES[j], steps=(["html", "all_whitespace"] if COLD_PROBES[j].startswith("<p>") else None),
+                               opts=OPTS[0]),
+                     observed=dict(distinct_outputs=len(groups), histories_by_output=list(groups.values())[:4]), expected=None)
+            agg["violations"].append(core.jsonable(v))
+            agg["viol_counts"]["C15.differs_with_call_history|None"] = agg["viol_counts"].get("C15.differs_with_call_history|None", 0) + 1
+    agg["counters"]["cold_first_observations"] = ncold
     if len(per_seed) < 2:
         return
     seeds = sorted(per_seed)
